@@ -22,10 +22,12 @@ TICKS = [1.0, 2.0, 0.5, 0.25, 0.125, 10.0, 3.0, 0.1, 0.01, 0.05, 1e-5, 7.0, 0.3,
 REQUIRED = {
     "quick": {"acceptances": 50000, "class/off_grid_buy": 5000, "class/off_grid_sell": 5000, "class/on_grid": 5000,
               "class/near_grid_ulp": 3000, "class/power_of_two_tick_exact": 5000, "class/runner_offgrid": 50,
-              "class/non_builtin_bool_side_flag": 2000},
+              "class/non_builtin_bool_side_flag": 2000,
+              "class/offered_to_another_venue_first_and_refused_there": 4000},
     "thorough": {"acceptances": 1000000, "class/off_grid_buy": 100000, "class/off_grid_sell": 100000,
                  "class/on_grid": 100000, "class/near_grid_ulp": 50000, "class/power_of_two_tick_exact": 100000,
-                 "class/runner_offgrid": 1000, "class/non_builtin_bool_side_flag": 40000},
+                 "class/runner_offgrid": 1000, "class/non_builtin_bool_side_flag": 40000,
+                 "class/offered_to_another_venue_first_and_refused_there": 80000},
 }
 BATCH = 250
 
@@ -171,6 +173,13 @@ def run_case(case, res):
     m.setup({"tickSize": tick, "marketPrice": 100 * tick})
     m._update_time(next_fundamental_price=100 * tick)
     m._is_running = False
+    # a second venue with another grid: a router that tries venues in turn offers some orders to it first
+    others = [t for t in TICKS if t != tick]
+    other_tick = others[int(case["prices"][0][0] * 1000) % len(others)]
+    m2 = Market(market_id=1, prng=random.Random(1), simulator=SimStub(), name="m2")
+    m2.setup({"tickSize": other_tick, "marketPrice": 100 * other_tick})
+    m2._update_time(next_fundamental_price=100 * other_tick)
+    m2._is_running = False
     seen = set()
     import numpy as np
 
@@ -183,6 +192,14 @@ def run_case(case, res):
             flag = (np.bool_(is_buy), int(is_buy))[(j // 9) % 2]
             res.count("class/non_builtin_bool_side_flag")
         o = Order(agent_id=0, market_id=0, is_buy=flag, kind=LIMIT_ORDER, volume=1, price=p, ttl=1)
+        if j % 7 == 3:
+            try:
+                m2._add_order(o)
+            except ValueError:
+                res.count("class/offered_to_another_venue_first_and_refused_there")
+            else:
+                res.violation("accept", "order-for-another-market-accepted", {"tick": tick, "price": p})
+                continue
         try:
             log = m._add_order(o)
         except Exception as e:  # noqa
